@@ -13,7 +13,8 @@ ID = 'C03'
 TITLE = 'priorities: highest priority wins, latest among equals'
 RULE = ('a random skeleton of mapping paths (depth <=4); 2-5 stages each writing a random subset of its leaves (unique marker scalars or '
         'lists of scalars as atomic values) with !force/!weak on leaves, on enclosing mappings or on the root (at most one priority tag per '
-        'root-to-leaf path) and user metadata on every writer; non-trivial = a leaf path with >=3 writers of >=2 distinct priorities, or a '
+        'root-to-leaf path) and user metadata on every writer; in a third of the cases a mapping of one stage is used again through a yaml alias under '
+        'a further key, directly or below a tagged wrapper; non-trivial = a leaf path with >=3 writers of >=2 distinct priorities, or a '
         'container tag >=2 levels above a leaf it decides; distinct = hash of the case')
 BUDGET = {'quick': (4, 600), 'thorough': (16, 10000)}
 ASSUMPTIONS = ['nested priority tags with different values on one root-to-leaf path are not generated (statement does not rank them)',
@@ -91,6 +92,21 @@ def _case(draw):
                 if p:
                     nn.pop('prio', None)
         docs.append(d)
+    if draw(st.integers(0, 2)) == 0:
+        # yaml alias: a mapping of one stage is used again under a further top-level key of that stage, directly or inside a tagged
+        # wrapper - the copy takes its priority from where it stands (and from the tags it carries itself), the original keeps its own
+        i = draw(st.integers(0, n - 1))
+        cands = [nn for p, nn in tdoc.walk(docs[i]) if p and nn['t'] == 'map' and nn['items']]
+        if cands:
+            tgt = cands[draw(st.integers(0, len(cands) - 1))]
+            tgt['anchor'] = 'n0'
+            al = {'t': 'alias', 'name': 'n0'}
+            tagged_inside = any(nn.get('prio') is not None for _, nn in tdoc.walk(tgt))
+            wrap = None if (tagged_inside or docs[i].get('prio') is not None) else draw(st.sampled_from([None, 1, 1, -1]))
+            if wrap is None:
+                docs[i]['items'].append(['zal', al])
+            else:
+                docs[i]['items'].append(['zal', tdoc.mp([('k', al)], flow=False, prio=wrap, mdstyle='short')])
     return {'docs': docs, 'pool': pool}
 
 
@@ -101,8 +117,12 @@ def strategy():
 def _writers(doc, stage):
     """-> {leaf path: (prio, stage, value, md)}, {container path: (prio, stage, md)}"""
     leaves, conts = {}, {}
+    anchors = {n['anchor']: n for _, n in tdoc.walk(doc) if n.get('anchor')}
 
     def rec(n, path, prio):
+        if n['t'] == 'alias':
+            # the content of the anchor, as if written here: priority from this place unless the content carries tags of its own
+            return rec({k: v for k, v in anchors[n['name']].items() if k != 'anchor'}, path, prio)
         if n.get('prio') is not None and prio == 0:
             prio = n['prio']
         elif n.get('prio') is not None:
@@ -134,6 +154,11 @@ def run_case(case):
     labels = {f'stages={len(docs)}'}
     if case.get('pool'):
         labels.add('restated-values')
+    if any(nn['t'] == 'alias' for d in docs for _, nn in tdoc.walk(d)):
+        labels.add('yaml-alias-of-a-mapping')
+        if any(k == 'zal' and v['t'] == 'map' for d in docs for k, v in d['items']):
+            labels.add('alias-below-a-tagged-wrapper')
+            nontrivial = True
     for p, ws in leaf_writers.items():
         cur = ws[0]
         md = dict(cur[3])
